@@ -78,6 +78,32 @@ func (x *Exec) doCall(res ssa.Value, call *ssa.CallCommon, p token.Pos) {
 		key := ifaceKey(call.Value.Type(), call.Method)
 		if c, ok := x.V.DB.ByKey[key]; ok {
 			sig := call.Method.Type().(*types.Signature)
+			if cb := c.Options["callback"]; cb != "" {
+				// "calls its function argument exactly once, synchronously, and returns
+				// what it returns": the closure is executed in place with fresh arguments
+				var idx int
+				fmt.Sscanf(cb, "%d", &idx)
+				if idx < len(args) && args[idx].Fn != nil {
+					fsig := args[idx].Fn.Signature
+					var cbArgs []Val
+					for i := 0; i < fsig.Params().Len(); i++ {
+						pt := fsig.Params().At(i).Type()
+						fresh := tv(x.smt.fresh("cbarg", x.smt.sortOf(pt)))
+						if x.smt.sortOf(pt) == "Any" {
+							x.smt.assume(implies(x.reach, "(not (= "+fresh.T+" ANil))"))
+						}
+						cbArgs = append(cbArgs, fresh)
+					}
+					x.ensureGhost(c.Modifies)
+					if pre := c.Options["before"]; pre == "resetiter" {
+						x.setSV("KV.itvalid", "Bool", "false")
+					}
+					x.V.noteAssumed(key + " calls its callback exactly once and returns its result")
+					x.callFunction(args[idx].Fn, args[idx].Binds, cbArgs, nil, setRes, p)
+					return
+				}
+				x.markA(key + ": callback argument is not a closure literal")
+			}
 			names := []string{"self"}
 			tys := []types.Type{call.Value.Type()}
 			for i := 0; i < sig.Params().Len(); i++ {
@@ -248,9 +274,12 @@ func (x *Exec) canInline(f *ssa.Function) bool {
 	if len(f.Blocks) > 40 {
 		return false
 	}
+	// closures of the function under contract may contain loops: their invariants
+	// are written in the enclosing contract as loop <100*closure + n>
+	ownClosure := f.Parent() != nil && f.Parent() == x.root().fn
 	for _, b := range f.Blocks {
 		for _, s := range b.Succs {
-			if s.Dominates(b) {
+			if s.Dominates(b) && !ownClosure {
 				return false // has a loop
 			}
 		}
@@ -275,6 +304,14 @@ func (x *Exec) inline(f *ssa.Function, binds []Val, args []Val, p token.Pos) Val
 		refWrites: x.refWrites, freshRefs: x.freshRefs}
 	x.V.inlineSeq++
 	ch.nameSuffix = fmt.Sprintf("%s~%d", x.nameSuffix, x.V.inlineSeq)
+	if f.Parent() != nil && f.Parent() == x.root().fn {
+		for k, af := range f.Parent().AnonFuncs {
+			if af == f {
+				ch.loopBase = 100 * (k + 1)
+			}
+		}
+	}
+	ch.lastIter, ch.lastIterSort = x.lastIter, x.lastIterSort
 	for i, prm := range f.Params {
 		if i < len(args) {
 			ch.vals[prm] = args[i]
@@ -391,6 +428,7 @@ func (x *Exec) applyContract(c *Contract, name string, args []Val, names []strin
 	}
 	if !c.Pure {
 		if len(c.Modifies) > 0 {
+			x.ensureGhost(c.Modifies)
 			x.havocMatching(c.Modifies)
 		} else {
 			x.havocMatching([]string{"*"})
